@@ -177,6 +177,20 @@ def py_infer(s, env):
     if h == 'IsNA':
         sub(s[1])
         return ('Boolean',)
+    if h == 'Typed':
+        t, a = parse_type(s[1]), sub(s[2])
+        need(a == t, f'the front end attached {show_type(t)} to {s[2][0]} {s[2][1] if s[2][0] == "Ref" else ""} but its binders / the rule give '
+             f'{show_type(a)}')
+        return a
+    if h == 'Coalesce':
+        ts = [sub(x) for x in s[1:]]
+        need(ts and all(t == ts[0] for t in ts), 'operand types')
+        return ts[0]
+    if h == 'StreamScan':
+        a, z = sub(s[3]), sub(s[4])
+        need(a[0] == 'Stream', 'not a stream')
+        need(sub(s[5], {**env, s[1]: z, s[2]: a[1]}) == z, 'accumulator type')
+        return ('Stream', z)
     if h == 'ApplyUnaryPrimOp':
         a = sub(s[2])
         if s[1] in ('-', 'Negate'):
@@ -430,9 +444,44 @@ class ExprGen:
             if k == 'f32':
                 return ['f32', rng.choice([0, 1, 2, -3])], 'f32'
             return (['f64', rng.choice([0, 1, 2, -3, 10])] if rng.random() < 0.6 else ['pyfloat', rng.choice([0, 2, -1])]), 'f64'
-        o = rng.choice(['bin', 'bin', 'bin', 'div', 'neg', 'if', 'cast', 'index', 'fold', 'field', 'tidx', 'len', 'let', 'dindex'])
-        if want is not None and o in ('div', 'len', 'dindex'):
+        o = rng.choice(['bin', 'bin', 'bin', 'div', 'neg', 'if', 'cast', 'index', 'fold', 'fold', 'wfold', 'wfold', 'field', 'tidx', 'len', 'let',
+                        'dindex', 'coalesce', 'case', 'switch', 'or_missing'])
+        if want is not None and o in ('div', 'len', 'dindex', 'wfold', 'coalesce', 'case', 'switch'):
             o = 'bin'
+        if o == 'wfold':
+            # a fold whose function returns something WIDER (or narrower) than its zero: the front end re-runs the function with a
+            # widened accumulator / coerces the body
+            a, te = self.array_num(env, d - 1)
+            z, tz = self.num(env, 0)
+            acc = ['var', len(env)]
+            elt = ['var', len(env) + 1]
+            other, to = (elt, te) if rng.random() < 0.7 else self.num(env + [tz, te], d - 1)
+            body = [rng.choice(['add', 'mul', 'sub', 'div', 'floordiv']), acc, other] if rng.random() < 0.8 else ['if', self.boolean(env, 0), acc, other]
+            t = promote(tz, to)
+            if body[0] == 'div':
+                t = 'f64' if t in ('i32', 'i64', 'f64') else 'f32'
+            return ['fold', a, z, body], t
+        if o == 'coalesce':
+            es = [self.num(env, d - 1) for _ in range(rng.choice([2, 2, 3]))]
+            t = es[0][1]
+            for _, te in es[1:]:
+                t = promote(t, te)
+            if len(es) == 2 and rng.random() < 0.5:
+                return ['or_else', es[0][0], es[1][0]], t
+            return ['coalesce', [e for e, _ in es]], t
+        if o in ('case', 'switch'):
+            n = rng.choice([1, 2, 3])
+            vals = [self.num(env, d - 1) for _ in range(n)]
+            dflt = self.num(env, d - 1) if rng.random() < 0.7 else None
+            t = vals[0][1]
+            for _, te in vals[1:] + ([dflt] if dflt else []):
+                t = promote(t, te)
+            if o == 'case':
+                return ['case', [[self.boolean(env, d - 1), v] for v, _ in vals], dflt[0] if dflt else None], t
+            return ['switch', self.num(env, 0, 'i32')[0], [[['pyint', i], v] for i, (v, _) in enumerate(vals)], dflt[0] if dflt else None], t
+        if o == 'or_missing':
+            a, ta = self.num(env, d - 1, want)
+            return ['or_missing', self.boolean(env, d - 1), a], ta
         if o == 'bin':
             a, ta = self.num(env, d - 1, want)
             b, tb = self.num(env, d - 1, want)
@@ -512,7 +561,22 @@ class ExprGen:
     def array_num(self, env, d, want=None):
         """-> (program of an array of numbers, element kind)"""
         rng = self.rng
-        o = rng.choice(['mk', 'mk', 'lit', 'map', 'filter', 'missing']) if d > 0 else rng.choice(['mk', 'lit'])
+        o = rng.choice(['mk', 'mk', 'lit', 'map', 'filter', 'missing', 'scan', 'scan', 'ifarr']) if d > 0 else rng.choice(['mk', 'lit'])
+        if o == 'scan':
+            a, te = self.array_num(env, d - 1)
+            z, tz = self.num(env, 0, want)
+            acc = ['var', len(env)]
+            elt = ['var', len(env) + 1]
+            if want is not None or rng.random() < 0.4:
+                body, _ = self.num(env + [tz, te], d - 1)
+                return ['scan', a, z, ['cast', tz, body]], tz
+            other, to = (elt, te) if rng.random() < 0.7 else self.num(env + [tz, te], d - 1)
+            return ['scan', a, z, [rng.choice(['add', 'mul', 'sub']), acc, other]], promote(tz, to)
+        if o == 'ifarr':
+            # if_else over arrays with different numeric element types: one branch is coerced element-wise
+            a, ta = self.array_num(env, d - 1, want)
+            b, tb = self.array_num(env, d - 1, want)
+            return ['if', self.boolean(env, d - 1), a, b], promote(ta, tb)
         if o == 'mk':
             es = [self.num(env, d - 1, want) for _ in range(rng.choice([1, 2, 3]))]
             t = es[0][1]
@@ -547,6 +611,10 @@ class ExprGen:
             return self.boolean([], d)
         if o == 'arr':
             return self.array_num([], d)[0]
+        if o == 'struct' and rng.random() < 0.3:
+            # if_else over structs whose fields have different numeric types
+            return ['if', self.boolean([], d - 1), ['struct', [['a', self.num([], d - 1)[0]], ['b', ['str', 'x']]]],
+                    ['struct', [['a', self.num([], d - 1)[0]], ['b', ['str', 'y']]]]]
         if o == 'struct':
             a, _ = self.num([], d - 1)
             s = ['struct', [['a', a], ['b', self.boolean([], d - 1)], ['c', self.array_num([], d - 1)[0]]]]
@@ -740,8 +808,10 @@ class C36(Prop):
     budget = {'quick': 4000, 'thorough': 60000}
     search_budget = {'quick': 4000, 'thorough': 60000}
     rule = ('case kinds: expr (45%) = random program over hl.int32/int64/float32/float64/literal/missing, + - * / //, unary -, ~, '
-            'comparisons, & |, if_else, is_defined, bind, array/set/dict/tuple/struct construction, indexing, len, map/filter/fold, field '
-            'access, annotate; impute (35%) = random nested Python value (None, bool, int incl. 32/64-bit boundaries, float, str, list, '
+'comparisons, & |, if_else (also over arrays / structs of different numeric types), case, switch, coalesce, or_else, or_missing, '
+            'is_defined, bind, array/set/dict/tuple/struct construction, indexing, len, map/filter/fold/scan (incl. folds and scans whose '
+            'function widens the zero), field access, annotate — every node of the emitted IR is rendered with the type the front end '
+            'attached to it (every Ref with the type it was built with) and the model / the twin rules re-derive all of them; impute (35%) = random nested Python value (None, bool, int incl. 32/64-bit boundaries, float, str, list, '
             'tuple, frozenset, dict, hl.Struct; homogeneous and heterogeneous); table (20%) = 1-6 Table API calls (annotate, '
             'annotate_globals, select, drop, key_by, filter, order_by, rename, explode) from range_table.  non-trivial = the front end '
             'accepted the program / produced a type; distinct by full case')
@@ -836,6 +906,24 @@ class C36(Prop):
             return b(p[1]).filter(lambda x: self.build_expr(p[2], env + [x]))
         if k == 'fold':
             return hl.fold(lambda acc, x: self._as_expr(self.build_expr(p[3], env + [acc, x])), b(p[2]), b(p[1]))
+        if k == 'scan':
+            return b(p[1]).scan(lambda acc, x: self._as_expr(self.build_expr(p[3], env + [acc, x])), b(p[2]))
+        if k == 'coalesce':
+            return hl.coalesce(*[b(x) for x in p[1]])
+        if k == 'or_else':
+            return hl.or_else(b(p[1]), b(p[2]))
+        if k == 'or_missing':
+            return hl.or_missing(b(p[1]), b(p[2]))
+        if k == 'case':
+            cb = hl.case()
+            for c0, v0 in p[1]:
+                cb = cb.when(b(c0), b(v0))
+            return cb.or_missing() if p[2] is None else cb.default(b(p[2]))
+        if k == 'switch':
+            sb = hl.switch(self._as_expr(b(p[1])))
+            for c0, v0 in p[2]:
+                sb = sb.when(b(c0), b(v0))
+            return sb.or_missing() if p[3] is None else sb.default(b(p[3]))
         if k == 'let':
             return hl.bind(lambda x: self._as_expr(self.build_expr(p[2], env + [x])), self._as_expr(b(p[1])))
         if k == 'struct':
@@ -856,6 +944,22 @@ class C36(Prop):
             return b(p[1])[b(p[2])]
         raise ValueError(k)
 
+    def render_typed(self, x):
+        """the PlainRenderer text of the IR, every value-IR node wrapped in `(Typed T …)` where T is the type the FRONT END attached to
+        that node object (`_type` set by construct_expr / assign_type; for a Ref the type it was constructed with)"""
+        from hail import ir
+        from hail.ir.renderer import PlainRenderer
+        r = PlainRenderer()
+
+        def go(n):
+            txt = n.render_head(r) + ''.join(' ' + go(c) for c in n.render_children(r)) + n.render_tail(r)
+            if isinstance(n, ir.IR):
+                t = n._typ if isinstance(n, ir.Ref) else n._type
+                if t is not None:
+                    return f'(Typed {t._parsable_string()} {txt})'
+            return txt
+        return ' '.join(go(x).split())
+
     def _as_expr(self, x):
         return x if isinstance(x, self.hl.expr.Expression) else self.hl.literal(x)
 
@@ -868,7 +972,7 @@ class C36(Prop):
         try:
             e = self._as_expr(self.build_expr(c['prog'], []))
             dt = e.dtype._parsable_string()
-            rendered = ' '.join(str(e._ir).split())
+            rendered = self.render_typed(e._ir)      # before the deep typecheck below fills in missing `_type`s
         except AssertionError as ex:
             r = ('assert', f'AssertionError {str(ex)[:200]}')
         except Exception as ex:
@@ -1105,12 +1209,13 @@ class C36(Prop):
                 return ('the front end attached a type that the emitted IR does not compute (assertion while building the '
                         f'expression): {r[1]}')
             _, dt, it, rendered = r
-            if dt != it:
-                return f'front end reports {dt} but the emitted IR computes {it}; IR = {rendered[:300]}'
             try:
                 implied = show_type(py_infer(parse_sexp(rendered), {}))
             except Untypable as ex:
-                return f'front end reports {dt} but the emitted IR is not typable by the IR rules ({ex}); IR = {rendered[:300]}'
+                return (f'front end reports {dt} but the emitted IR is not typable by the IR rules ({ex}); the IR\'s own deep typecheck '
+                        f'gives {it}; IR = {rendered[:300]}')
+            if dt != it:
+                return f'front end reports {dt} but the emitted IR computes {it}; IR = {rendered[:300]}'
             if implied != dt:
                 return f'front end reports {dt} but the IR rules give {implied}; IR = {rendered[:300]}'
             return None
